@@ -47,13 +47,13 @@ theorem regTbl_not_inert (k : Xml) (h : regTbl k = true) : inert k = false := by
 
 /-- **C02, a sequence of blocks**, from any collector state satisfying the walk invariant -/
 theorem C02_blocks (cfg : PartCfg) (num : Dict Str (List NumAttr)) (c : Bool) :
-    ∀ (ks : List Xml), (∀ k ∈ ks, regBlock k = true) → ∀ (s s' : DC), Inv s → walkL cfg num c s ks = .ok s' →
+    ∀ (ks : List Xml), (∀ k ∈ ks, regBlock k = true) → ∀ (s s' : DC), Inv s → NoImpl s → walkL cfg num c s ks = .ok s' →
       ∃ outs, BlocksMatch cfg (ks.filter (fun k => !inert k)) outs ∧
-        leafParsL s'.root = leafParsL s.root ++ outs.flatMap (blockLeaves cfg.dup) ∧ Inv s'
-  | [], _, s, s', hs, h => by
+        leafParsL s'.root = leafParsL s.root ++ outs.flatMap (blockLeaves cfg.dup) ∧ Inv s' ∧ s'.openPars = s.openPars
+  | [], _, s, s', hs, hni, h => by
     simp only [walkL] at h; have := pure_ok h; subst this
-    exact ⟨[], BlocksMatch.nil, by simp, hs⟩
-  | k :: ks, hk, s, s', hs, h => by
+    exact ⟨[], BlocksMatch.nil, by simp, hs, rfl⟩
+  | k :: ks, hk, s, s', hs, hni, h => by
     simp only [walkL] at h
     obtain ⟨s1, h1, h⟩ := bind_ok h
     have i1 := walk_inv cfg num k c s s1 hs h1
@@ -62,26 +62,26 @@ theorem C02_blocks (cfg : PartCfg) (num : Dict Str (List NumAttr)) (c : Bool) :
     rcases hkk with (hp | ht) | hi
     · -- a flat paragraph
       have hne : inert k = false := flatPar_inert_excl k hp
-      obtain ⟨outs, hm, hl, hinv⟩ := C02_blocks cfg num c ks (fun x hx => hk x (by simp [hx])) s1 s' i1 h
-      have hpar : ∃ q, leafParsL s1.root = leafParsL s.root ++ [q] := by
+      have hpar : ∃ q, leafParsL s1.root = leafParsL s.root ++ [q] ∧ s1.openPars = s.openPars := by
         cases k with
         | elem i p t m a tx tl kk =>
           have hp' := hp
           simp only [isFlatPar, Bool.and_eq_true, beq_iff_eq] at hp'
-          obtain ⟨par, _, _, e1, _⟩ := walk_paragraph cfg num c s s1 i p t m a tx tl kk hp'.1 hp'.2 h1
-          exact ⟨par, e1⟩
+          obtain ⟨par, _, _, e1, e2, _⟩ := walk_paragraph cfg num c s s1 i p t m a tx tl kk hp'.1 hp'.2 hni h1
+          exact ⟨par, e1, e2⟩
         | comment _ _ => simp [isFlatPar] at hp
         | pi _ => simp [isFlatPar] at hp
-      obtain ⟨q, hq⟩ := hpar
-      refine ⟨.par q :: outs, ?_, ?_, hinv⟩
+      obtain ⟨q, hq, hop1⟩ := hpar
+      obtain ⟨outs, hm, hl, hinv, hopq⟩ := C02_blocks cfg num c ks (fun x hx => hk x (by simp [hx])) s1 s' i1 (NoImpl_of_openPars hop1 hni) h
+      refine ⟨.par q :: outs, ?_, ?_, hinv, hopq.trans hop1⟩
       · rw [List.filter_cons]; simp only [hne, Bool.not_false, if_true]
-        exact BlocksMatch.cons (BlockMatches.par hp (parFrom_of_walk cfg num c s s1 k hp h1 q hq)) hm
+        exact BlocksMatch.cons (BlockMatches.par hp (parFrom_of_walk cfg num c s s1 k hp hni h1 q hq)) hm
       · rw [hl, hq]; simp [blockLeaves]
     · -- a regular table
       have hne : inert k = false := regTbl_not_inert k ht
-      obtain ⟨rows, hrm, hd1, hr1⟩ := C04_table cfg num c k ht s s1 hs.lo hs.hi h1
-      obtain ⟨outs, hm, hl, hinv⟩ := C02_blocks cfg num c ks (fun x hx => hk x (by simp [hx])) s1 s' i1 h
-      refine ⟨.table rows :: outs, ?_, ?_, hinv⟩
+      obtain ⟨rows, hrm, hd1, hr1, hop1⟩ := C04_table cfg num c k ht s s1 hs.lo hs.hi hni h1
+      obtain ⟨outs, hm, hl, hinv, hopq⟩ := C02_blocks cfg num c ks (fun x hx => hk x (by simp [hx])) s1 s' i1 (NoImpl_of_openPars hop1 hni) h
+      refine ⟨.table rows :: outs, ?_, ?_, hinv, hopq.trans hop1⟩
       · rw [List.filter_cons]; simp only [hne, Bool.not_false, if_true]
         exact BlocksMatch.cons (BlockMatches.table ht hrm) hm
       · rw [hl, hr1, leafParsL_append]
@@ -89,8 +89,8 @@ theorem C02_blocks (cfg : PartCfg) (num : Dict Str (List NumAttr)) (c : Bool) :
     · -- nothing the walk looks at
       rw [walk_inert cfg num k hi c s] at h1
       cases h1
-      obtain ⟨outs, hm, hl, hinv⟩ := C02_blocks cfg num c ks (fun x hx => hk x (by simp [hx])) s s' hs h
-      refine ⟨outs, ?_, hl, hinv⟩
+      obtain ⟨outs, hm, hl, hinv, hopq⟩ := C02_blocks cfg num c ks (fun x hx => hk x (by simp [hx])) s s' hs hni h
+      refine ⟨outs, ?_, hl, hinv, hopq⟩
       rw [List.filter_cons]; simp only [hi, Bool.not_true, Bool.false_eq_true, if_false]; exact hm
 
 /-! ## once, in order -/
